@@ -245,6 +245,55 @@ def r5(p, rep):
     if n_found == 0:
         raise AnalysisError("unrecognised idiom: no `value == 1` squeeze predicate handed to stage3.remove in the decomposer")
 
+# words that identify which member of a backend's scatter family a primitive expression denotes
+KIND_WORDS = {
+    "set": {"put", "set", "__setitem__", "tensor_scatter_nd_update", "scatter", "index_put_:accumulate=False", "op=set"},
+    "add": {"add", "tensor_scatter_nd_add", "scatter_add", "index_add", "index_put_:accumulate=True", "op=add"},
+    "subtract": {"subtract", "sub", "tensor_scatter_nd_sub", "op=subtract"},
+}
+NEGATE_WORDS = {"neg", "negative", "__neg__"}
+# backends whose scatter family has no subtracting member: add-with-negated-updates is the reviewed substitute
+NEGATED_ADD_OK = {"torch": "torch.index_put_ only knows accumulate=True/False, so updates are negated with torch.neg; index_put_ requires updates of the target's dtype, so no unsigned-into-wider-target case arises as it does with numpy ufunc.at. Not confirmable here (torch is not installed)"}
+
+
+def _primitive_words(expr):
+    words = set()
+    for n in ast.walk(expr):
+        if isinstance(n, ast.Attribute):
+            words.add(n.attr)
+        elif isinstance(n, ast.Name):
+            words.add(n.id)
+        elif isinstance(n, ast.Call):
+            fn = norm(n.func).split(".")[-1]
+            for k in n.keywords:
+                if k.arg and isinstance(k.value, ast.Constant):
+                    words.add(f"{fn}:{k.arg}={k.value.value}")
+                    words.add(f"{k.arg}={k.value.value}")
+    return words
+
+
+def r6(p, rep):
+    rep.rule("C14.R6", "each *_at entry is built on the member of the backend's scatter family that its name says (set / add / subtract)", "T-TAB (name vs primitive, per backend)", floor=18)
+    for fw, cls in backends.classical_ops(p).items():
+        for r in backends.registrations(p, cls):
+            if r.name not in UPDATE_NAMES or (r.combinator or "").split(".")[-1] != "update_at" or not r.value.args:
+                continue
+            kind = r.name[: -len("_at")]
+            prim = r.value.args[0]
+            words = _primitive_words(prim)
+            has = {k: bool(words & ws) for k, ws in KIND_WORDS.items()}
+            neg = bool(words & NEGATE_WORDS)
+            key = f"{cls.qualname}:{r.name}:primitive"
+            if kind == "subtract" and not has["subtract"] and has["add"] and neg:
+                if fw in NEGATED_ADD_OK:
+                    rep.exempt("C14.R6", key, r.site, NEGATED_ADD_OK[fw])
+                else:
+                    rep.violation("C14.R6", key, r.site, f"{fw} subtract_at is built as add-with-negated-updates (`{norm(prim)[:70]}`) although the other entries of this table use the framework's own scatter family: negating the updates is not subtraction for unsigned integer updates (they wrap modulo 2**n before they are accumulated into a wider target)")
+                continue
+            # `subtract` contains no other family word; `add` entries must not mention subtract and vice versa
+            ok = has[kind] and not (kind == "add" and has["subtract"]) and not (kind == "set" and (has["add"] or has["subtract"])) and not (kind == "subtract" and neg)
+            rep.add("C14.R6", key, r.site, ok, f"{r.name} <- {norm(prim)[:60]}" if ok else f"the {fw} entry `{r.name}` is built on `{norm(prim)[:70]}`, which is not the `{kind}` member of the scatter family (family words found: {sorted(k for k, v in has.items() if v)}{', negated updates' if neg else ''})")
+
 
 def run(p, rep, tier):
     r1(p, rep)
@@ -253,5 +302,6 @@ def run(p, rep, tier):
     r3(p, rep)
     r4(p, rep)
     r5(p, rep)
+    r6(p, rep)
     rep.assume("np.put flattens and cycles its values; ufunc.at, jnp .at[].set/add, torch.index_put_, tf.tensor_scatter_nd_* and x[idx] = v broadcast or require equal shapes")
     rep.info["undecided"] = "ravel arithmetic, accumulation of duplicates, untouched elements and get_at read-back are value-level and not decided"
